@@ -29,28 +29,28 @@ Proof.
   - reflexivity.
   - intros l x. destruct l as [|b0 t]; [cbn; congruence|].
     unfold judge_rtcm. cbn [app].
-    destruct (negb (N.eqb b0 RTCM_PREAMBLE)); [reflexivity|].
+    destruct (negb (N.eqb b0 SPEC_PREAMBLE)); [reflexivity|].
     change ((b0 :: t) ++ x) with ((b0 :: t) ++ x). set (l := b0 :: t).
     change (b0 :: t ++ x) with (l ++ x).
-    destruct (Nat.ltb (length l) (N.to_nat RTCM_HEADER_BYTES)) eqn:E1; [congruence|]. apply Nat.ltb_ge in E1.
+    destruct (Nat.ltb (length l) (N.to_nat SPEC_HEADER_BYTES)) eqn:E1; [congruence|]. apply Nat.ltb_ge in E1.
     assert (H3 : (3 <= length l)%nat) by exact E1.
-    assert (Hx : Nat.ltb (length (l ++ x)) (N.to_nat RTCM_HEADER_BYTES) = false)
+    assert (Hx : Nat.ltb (length (l ++ x)) (N.to_nat SPEC_HEADER_BYTES) = false)
       by (apply Nat.ltb_ge; rewrite app_length; lia).
     rewrite Hx. rewrite !nth_app_l by lia.
     set (size := Nat.add (N.to_nat (rtcm_len (nth 1 l 0) (nth 2 l 0))) RTCM_OVERHEAD).
-    destruct ((cap <? N.of_nat size) || (RTCM_HEADER_BYTES + RTCM_MAX_PAYLOAD + RTCM_CRC_BYTES <? N.of_nat size)); [reflexivity|].
+    destruct ((cap <? N.of_nat size) || (SPEC_HEADER_BYTES + SPEC_MAX_PAYLOAD + SPEC_CRC_BYTES <? N.of_nat size)); [reflexivity|].
     destruct (Nat.ltb (length l) size) eqn:E2; [congruence|]. apply Nat.ltb_ge in E2.
     assert (Hx2 : Nat.ltb (length (l ++ x)) size = false) by (apply Nat.ltb_ge; rewrite app_length; lia).
     rewrite Hx2. intros _.
     rewrite firstn_app_le by lia. rewrite sub_app_l; [reflexivity|].
     assert (6 <= size)%nat by (subst size; unfold RTCM_OVERHEAD; cbn; lia).
-    change (N.to_nat RTCM_CRC_BYTES) with 3%nat. lia.
+    change (N.to_nat SPEC_CRC_BYTES) with 3%nat. lia.
   - intros l n. destruct l as [|b0 t]; [cbn; congruence|].
     unfold judge_rtcm. set (l := b0 :: t).
-    destruct (negb (N.eqb b0 RTCM_PREAMBLE)); [discriminate|].
-    destruct (Nat.ltb (length l) (N.to_nat RTCM_HEADER_BYTES)); [discriminate|].
+    destruct (negb (N.eqb b0 SPEC_PREAMBLE)); [discriminate|].
+    destruct (Nat.ltb (length l) (N.to_nat SPEC_HEADER_BYTES)); [discriminate|].
     set (size := Nat.add (N.to_nat (rtcm_len (nth 1 l 0) (nth 2 l 0))) RTCM_OVERHEAD).
-    destruct ((cap <? N.of_nat size) || (RTCM_HEADER_BYTES + RTCM_MAX_PAYLOAD + RTCM_CRC_BYTES <? N.of_nat size)); [discriminate|].
+    destruct ((cap <? N.of_nat size) || (SPEC_HEADER_BYTES + SPEC_MAX_PAYLOAD + SPEC_CRC_BYTES <? N.of_nat size)); [discriminate|].
     destruct (Nat.ltb (length l) size) eqn:E2; [discriminate|]. apply Nat.ltb_ge in E2.
     destruct (N.eqb (crc24q _) _); [|discriminate].
     intros H. apply Accept_inj0 in H. subst n. split; [|exact E2]. subst size. unfold RTCM_OVERHEAD. cbn. lia.
@@ -60,11 +60,11 @@ Theorem judge_rtcm_local cap : JudgeLocal (judge_rtcm cap).
 Proof.
   intros l n. destruct l as [|b0 t]; [cbn; congruence|].
   unfold judge_rtcm at 1. set (l := b0 :: t).
-  destruct (negb (N.eqb b0 RTCM_PREAMBLE)) eqn:E0; [discriminate|].
-  destruct (Nat.ltb (length l) (N.to_nat RTCM_HEADER_BYTES)) eqn:E1; [discriminate|]. apply Nat.ltb_ge in E1.
+  destruct (negb (N.eqb b0 SPEC_PREAMBLE)) eqn:E0; [discriminate|].
+  destruct (Nat.ltb (length l) (N.to_nat SPEC_HEADER_BYTES)) eqn:E1; [discriminate|]. apply Nat.ltb_ge in E1.
   assert (H3 : (3 <= length l)%nat) by exact E1.
   set (size := Nat.add (N.to_nat (rtcm_len (nth 1 l 0) (nth 2 l 0))) RTCM_OVERHEAD).
-  destruct ((cap <? N.of_nat size) || (RTCM_HEADER_BYTES + RTCM_MAX_PAYLOAD + RTCM_CRC_BYTES <? N.of_nat size)) eqn:E3; [discriminate|].
+  destruct ((cap <? N.of_nat size) || (SPEC_HEADER_BYTES + SPEC_MAX_PAYLOAD + SPEC_CRC_BYTES <? N.of_nat size)) eqn:E3; [discriminate|].
   destruct (Nat.ltb (length l) size) eqn:E2; [discriminate|]. apply Nat.ltb_ge in E2.
   destruct (N.eqb (crc24q _) _) eqn:E4; [|discriminate].
   intros H. apply Accept_inj0 in H. subst n.
@@ -74,30 +74,30 @@ Proof.
   { unfold l. rewrite <- firstn_cons. f_equal. lia. }
   unfold judge_rtcm. rewrite Hf at 1. rewrite E0.
   rewrite Hl.
-  assert (Nat.ltb size (N.to_nat RTCM_HEADER_BYTES) = false) as -> by (apply Nat.ltb_ge; change (N.to_nat RTCM_HEADER_BYTES) with 3%nat; lia).
+  assert (Nat.ltb size (N.to_nat SPEC_HEADER_BYTES) = false) as -> by (apply Nat.ltb_ge; change (N.to_nat SPEC_HEADER_BYTES) with 3%nat; lia).
   assert (Hn1 : nth 1 (firstn size l) 0 = nth 1 l 0).
   { rewrite <- (firstn_skipn size l) at 2. rewrite app_nth1 by lia. reflexivity. }
   assert (Hn2 : nth 2 (firstn size l) 0 = nth 2 l 0).
   { rewrite <- (firstn_skipn size l) at 2. rewrite app_nth1 by lia. reflexivity. }
   rewrite Hn1, Hn2. fold size. rewrite E3, Nat.ltb_irrefl.
   rewrite firstn_firstn, Nat.min_l by lia.
-  rewrite sub_firstn by (change (N.to_nat RTCM_CRC_BYTES) with 3%nat; lia).
+  rewrite sub_firstn by (change (N.to_nat SPEC_CRC_BYTES) with 3%nat; lia).
   rewrite E4. reflexivity.
 Qed.
 
 (* what acceptance means, as listed in the property text *)
 Theorem judge_rtcm_accept_inv cap l n :
   judge_rtcm cap l = Accept n ->
-  nth 0 l 0 = RTCM_PREAMBLE /\ (3 <= length l)%nat /\
+  nth 0 l 0 = SPEC_PREAMBLE /\ (3 <= length l)%nat /\
   n = Nat.add (N.to_nat (rtcm_len (nth 1 l 0) (nth 2 l 0))) 6 /\ (n <= length l)%nat /\ N.of_nat n <= cap /\
   crc24q (firstn (n - 3) l) = be (sub l (n - 3) 3).
 Proof.
   destruct l as [|b0 t]; [cbn; congruence|].
   unfold judge_rtcm. set (l := b0 :: t).
-  destruct (N.eqb b0 RTCM_PREAMBLE) eqn:E0; [|discriminate]. cbn [negb].
-  destruct (Nat.ltb (length l) (N.to_nat RTCM_HEADER_BYTES)) eqn:E1; [discriminate|]. apply Nat.ltb_ge in E1.
+  destruct (N.eqb b0 SPEC_PREAMBLE) eqn:E0; [|discriminate]. cbn [negb].
+  destruct (Nat.ltb (length l) (N.to_nat SPEC_HEADER_BYTES)) eqn:E1; [discriminate|]. apply Nat.ltb_ge in E1.
   set (size := Nat.add (N.to_nat (rtcm_len (nth 1 l 0) (nth 2 l 0))) RTCM_OVERHEAD).
-  destruct ((cap <? N.of_nat size) || (RTCM_HEADER_BYTES + RTCM_MAX_PAYLOAD + RTCM_CRC_BYTES <? N.of_nat size)) eqn:E3; [discriminate|].
+  destruct ((cap <? N.of_nat size) || (SPEC_HEADER_BYTES + SPEC_MAX_PAYLOAD + SPEC_CRC_BYTES <? N.of_nat size)) eqn:E3; [discriminate|].
   apply orb_false_iff in E3 as [E3 _].
   destruct (Nat.ltb (length l) size) eqn:E2; [discriminate|]. apply Nat.ltb_ge in E2.
   destruct (N.eqb (crc24q _) _) eqn:E4; [|discriminate].
